@@ -119,3 +119,17 @@ class Modules:
 			module = self.__modules[module_path]
 			self.__loader.unload(module.module_path)
 			del self.__modules[module_path]
+
+			# XXX 依存元のモジュールは、アンロードしたモジュールのシンボルを参照したまま残るため合わせてアンロード
+			for dependant in self.__dependants(module_path):
+				self.unload(dependant)
+
+	def __dependants(self, module_path: str) -> list[str]:
+		"""指定のモジュールをインポートしている読み込み済みのモジュールを取得
+
+		Args:
+			module_path: モジュールパス
+		Returns:
+			モジュールパスリスト
+		"""
+		return [path for path, module in self.__modules.items() if module_path in [import_node.import_path.tokens for import_node in module.entrypoint.imports]]
